@@ -125,7 +125,7 @@ def work(ctx, item):
         if a[1] != want or list(a[1]['elements']) != list(want['elements']):
             ctx.violation(site, 'selection', 'get_basis(elements=%r) is not the full basis restricted to %s' % (sel, sorted(exp)[:10]), replay)
         ctx.sample({'name': disp, 'version': version, 'elements': sel, 'selected': sorted(exp)})
-    for empty in (None, [], ''):
+    for empty in (None, [], '', [''], ' ', ',', [',,,'], ['', ' ']):        # a selection that expands to nothing selects everything
         a = impl.call(bse.get_basis, disp, elements=empty, version=version)
         ctx.case((name, version, repr(empty)), False, 'selection-empty')
         if a != r:
@@ -142,7 +142,7 @@ def work(ctx, item):
             ctx.violation(site, 'malformed-accepted', 'malformed selection %r accepted' % (sel, ), {'kind': 'selection', 'name': name, 'version': version, 'selection': sel})
     # unknown things raise KeyError
     z1 = int(next(iter(full['elements'])))
-    for kw, fp in (({'version': '99'}, 'unknown-version'), ({'elements': [119 if '119' not in full['elements'] else 120]}, 'unknown-element'),
+    for kw, fp in (({'version': '99'}, 'unknown-version'), ({'version': 1.5}, 'unknown-version:1.5'), ({'version': 0.3}, 'unknown-version:0.3'), ({'elements': [119 if '119' not in full['elements'] else 120]}, 'unknown-element'),
                    ({'elements': [0]}, 'unknown-element:[0]'), ({'elements': [0, z1]}, 'unknown-element:[0,z]'), ({'elements': ['0']}, "unknown-element:['0']"),
                    ({'elements': '0,%d' % z1}, "unknown-element:'0,z'"), ({'elements': [z1, 0, 'X']}, 'unknown-element:[z,0,X]')):
         args = dict(version=version)
